@@ -1,5 +1,273 @@
-//! stub
-use crate::checks::{RunRecord, Tier};
+//! Fault-enumeration checks: per sampled world a whole grid of faults is enumerated.
+//!  * C06: expiry-vs-clock offsets x UTC-offset notations x verifier instants x delegation depth x clock jumps
+//!  * C08: failing verification stage x inspection process outcome x file operations
+
+use crate::checks::{exec_supply, RunRecord, Tier};
 use crate::exec::Scratch;
-pub fn run_c06(_t: Tier, _s: u64, _i: u64, _sc: &Scratch, _r: &mut RunRecord) {}
-pub fn run_c08(_t: Tier, _s: u64, _i: u64, _sc: &Scratch, _r: &mut RunRecord) {}
+use crate::gen::{self, GenOpts, F};
+use crate::prng::Rng;
+use crate::refmodel;
+use crate::supply::{run_supply, SupplyTrace};
+use crate::world::*;
+
+const NS: i128 = 1_000_000_000;
+
+fn sub_levels<'a>(l: &'a mut LevelSpec, depth: usize, out: &mut Vec<(usize, *mut LevelSpec)>) {
+    out.push((depth, l as *mut LevelSpec));
+    for f in l.files.iter_mut() {
+        if let Body::Layout(inner) = &mut f.body {
+            sub_levels(inner, depth + 1, out);
+        }
+    }
+}
+
+fn max_depth(l: &LevelSpec) -> usize {
+    l.files
+        .iter()
+        .filter_map(|f| match &f.body {
+            Body::Layout(i) => Some(1 + max_depth(i)),
+            _ => None,
+        })
+        .max()
+        .unwrap_or(0)
+}
+
+/// Set every level's expiry to `far`, except levels at `depth`, which get `text`.
+fn set_expiries(root: &mut LevelSpec, depth: usize, text: &str, far: &str) {
+    let mut v = vec![];
+    sub_levels(root, 0, &mut v);
+    for (d, p) in v {
+        // SAFETY: pointers from one exclusive borrow, used one at a time
+        let l = unsafe { &mut *p };
+        l.layout.expires = if d == depth { text.to_string() } else { far.to_string() };
+    }
+}
+
+pub fn run_c06(tier: Tier, seed: u64, index: u64, scratch: &Scratch, rec: &mut RunRecord) {
+    let mut r = Rng::stream(seed, "faults");
+    let opts = GenOpts {
+        delegation_pct: 45,
+        max_depth: 2,
+        max_steps: 2,
+        ed_only_pct: if tier == Tier::Quick { 100 } else { 90 },
+        rich_text: false,
+        ..GenOpts::default()
+    };
+    let (base, _plan) = gen::baseline(seed, &opts);
+    let far = "9999-12-31T23:59:59Z";
+    // the fault-free world (all expiries far in the future) must be accepted
+    let mut b = base.clone();
+    set_expiries(&mut b.root, usize::MAX, far, far);
+    let o = run_supply(&b, scratch);
+    if o.no_layout.is_some() || !o.verdicts.iter().all(|v| v.ok) {
+        rec.evaluations += 1;
+        rec.vacuous += 1;
+        rec.vacuous_why.push(o.no_layout.clone().unwrap_or_else(|| o.verdicts.first().map(|v| v.short()).unwrap_or_default()).chars().take(160).collect());
+        return;
+    }
+    let depth_max = max_depth(&b.root).min(2);
+    let year: i128 = 365 * 86_400;
+    // expiry - clock, in nanoseconds
+    let deltas: [(&str, i128); 9] = [
+        ("-10y", -10 * year * NS),
+        ("-1d", -86_400 * NS),
+        ("-1s", -NS),
+        ("-1ns", -1),
+        ("0", 0),
+        ("+1ns", 1),
+        ("+1s", NS),
+        ("+1d", 86_400 * NS),
+        ("+10y", 10 * year * NS),
+    ];
+    let notations: [(&str, Option<i64>, &str, u32); 8] = [
+        ("Z", None, "", 0),
+        ("+00:00", Some(0), "", 0),
+        ("+05:30", Some(330), "", 0),
+        ("-11:00", Some(-660), "", 0),
+        ("+14:00", Some(840), "", 0),
+        (".5Z", None, ".5", 500_000_000),
+        (".000000001Z", None, ".000000001", 1),
+        (".999999999+05:30", Some(330), ".999999999", 999_999_999),
+    ];
+    // verifier instants (seconds): 1970-01-02, 2001-09-09, 2026, 2038-01-19T03:14:08Z, 2100, 9000
+    let instants: [(&str, i64); 6] = [
+        ("1970", 86_400),
+        ("2001", 1_000_000_000),
+        ("2026", 1_790_000_000 + (seed % 86_400) as i64),
+        ("2038", 2_147_483_648),
+        ("2100", 4_102_444_800),
+        ("9000", 221_845_392_000),
+    ];
+    let n_inst = if tier == Tier::Quick { 3 } else { 6 };
+    let inst_off = r.idx(6);
+    for pos in 0..=depth_max {
+        for ii in 0..n_inst {
+            let (iname, t_s) = instants[(inst_off + ii) % 6];
+            for (nname, off, frac, e_ns) in notations.iter() {
+                // extra cell: expiry in year 9999 regardless of delta
+                for (dname, d) in deltas.iter().chain([("y9999", i128::MAX)].iter()) {
+                    for jump in [false, true] {
+                        if jump && !(dname.starts_with('-') || *dname == "0" || *dname == "+1ns") {
+                            continue;
+                        }
+                        // expiry instant E = (e_s, e_ns); clock = E - delta
+                        let (e_s, clock): (i64, (i64, u32)) = if *d == i128::MAX {
+                            (253_402_300_799 - 86_400, (t_s, 0))
+                        } else {
+                            // choose E so that the clock lands on second t_s (+ sub-second part)
+                            let c_total: i128 = t_s as i128 * NS + 123_456_789;
+                            let e_total = c_total + d;
+                            // force E's nanosecond part to the notation's fraction, adjust the clock accordingly
+                            let e_s = e_total.div_euclid(NS);
+                            let e_total = e_s * NS + *e_ns as i128;
+                            let c_total = e_total - d;
+                            if c_total < 0 {
+                                continue;
+                            }
+                            (e_s as i64, (c_total.div_euclid(NS) as i64, c_total.rem_euclid(NS) as u32))
+                        };
+                        let shown = e_s + off.unwrap_or(0) * 60;
+                        if !(-62_135_596_800 + 86_400..253_402_300_799 - 86_400 * 2).contains(&shown) && *d != i128::MAX {
+                            continue;
+                        }
+                        if e_s < -62_000_000_000 {
+                            continue;
+                        }
+                        let text = refmodel::render_rfc3339(e_s, *off, frac);
+                        let mut t = base.clone();
+                        set_expiries(&mut t.root, pos, &text, far);
+                        t.clock = if jump { vec![clock, (clock.0 + 365 * 86_400, clock.1)] } else { vec![clock] };
+                        t.labels = vec![format!("d={dname}"), format!("n={nname}"), format!("t={iname}"), format!("pos={pos}"), if jump { "JUMP".into() } else { "CONST".into() }];
+                        let before = rec.evaluations;
+                        exec_supply("C06", &t, scratch, rec, seed, index);
+                        let _ = before;
+                        rec.sim_seconds += (e_s - clock.0).unsigned_abs() as f64;
+                        if *dname == "-1ns" || *dname == "+1ns" || *dname == "0" {
+                            rec.probe("expiry within 1 ns of the clock");
+                        }
+                        if pos > 0 {
+                            rec.probe("expiring layout is a delegated one");
+                        }
+                        if pos > 1 {
+                            rec.probe("expiring layout at delegation depth 2");
+                        }
+                    }
+                }
+            }
+        }
+    }
+}
+
+// ---------------------------------------------------------------------------------------------
+// C08
+// ---------------------------------------------------------------------------------------------
+fn set_actor(t: &mut SupplyTrace, which: usize, exit: ExitSpec, ops: Vec<FsOp>, noutf8: bool) {
+    if let Some(i) = t.root.layout.inspect.get_mut(which) {
+        i.actor.exit = exit;
+        i.actor.ops = ops;
+        i.actor.stdout = if noutf8 { vec![0xff, 0xfe, 0x00, 0xc3] } else { b"inspected\n".to_vec() };
+    }
+}
+
+pub fn run_c08(tier: Tier, seed: u64, index: u64, scratch: &Scratch, rec: &mut RunRecord) {
+    let mut r = Rng::stream(seed, "faults");
+    let opts = GenOpts {
+        delegation_pct: 30,
+        max_depth: 1,
+        max_steps: 3,
+        ed_only_pct: 100,
+        inspections: true,
+        rich_text: false,
+        ..GenOpts::default()
+    };
+    let (mut base, plan) = gen::baseline(seed, &opts);
+    // inspection rules: products of the inspection must not contain a file named "forbidden"
+    for i in base.root.layout.inspect.iter_mut() {
+        i.exp_prod = vec![vec!["DISALLOW".into(), "forbidden".into()]];
+    }
+    // baseline: all inspections exit 0 and touch nothing
+    let o = run_supply(&base, scratch);
+    if o.no_layout.is_some() || !o.verdicts.iter().all(|v| v.ok) {
+        rec.evaluations += 1;
+        rec.vacuous += 1;
+        rec.vacuous_why.push(o.no_layout.clone().unwrap_or_else(|| o.verdicts.first().map(|v| v.short()).unwrap_or_default()).chars().take(160).collect());
+        let j = crate::oracle::judge_supply(&base, &o);
+        for f in j.findings {
+            rec.cross.push(f);
+        }
+        return;
+    }
+    let stages: &[Option<F>] = &[
+        None,
+        Some(F::LCorrupt),
+        Some(F::LNoSig),
+        Some(F::Skew),
+        Some(F::Drop),
+        Some(F::Outsider),
+        Some(F::SigSwap),
+        Some(F::Unmet),
+        Some(F::Dissent),
+        Some(F::ATamper),
+        Some(F::SubInner),
+        Some(F::WrongStep),
+        Some(F::LinkEdit),
+    ];
+    let outcomes: &[(ExitSpec, bool)] = &[
+        (ExitSpec::Code(0), false),
+        (ExitSpec::Code(1), false),
+        (ExitSpec::Code(2), false),
+        (ExitSpec::Code(126), false),
+        (ExitSpec::Code(255), false),
+        (ExitSpec::Signal(9), false),
+        (ExitSpec::NotFound, false),
+        (ExitSpec::Code(0), true),
+    ];
+    let n_insp = base.root.layout.inspect.len();
+    let fileops = if tier == Tier::Quick { 2 } else { 4 };
+    for stage in stages {
+        // one concrete failing world per stage (placement drawn from the seed)
+        let mut staged = base.clone();
+        if let Some(f) = stage {
+            let mut fr = Rng::stream(seed ^ crate::prng::fnv(gen::fname(*f)), "stage");
+            let mut ok = false;
+            for _ in 0..6 {
+                if gen::apply_fault(&mut staged, &plan, *f, &mut fr, *f == F::SubInner) {
+                    ok = true;
+                    break;
+                }
+            }
+            if !ok {
+                continue;
+            }
+        }
+        for (exit, noutf8) in outcomes {
+            for fo in 0..fileops {
+                let fo = (fo + r.idx(4)) % 4;
+                let mut t = staged.clone();
+                let which = r.idx(n_insp.max(1));
+                let ops = match fo {
+                    0 => vec![],
+                    1 => vec![FsOp::Write { path: "sentinel".into(), content: "created by inspection".into() }],
+                    2 => vec![FsOp::Append { path: "pre-existing".into(), content: "modified".into() }],
+                    _ => vec![FsOp::Remove { path: "pre-existing".into() }, FsOp::Write { path: "forbidden".into(), content: "x".into() }],
+                };
+                if fo >= 2 {
+                    t.work_files.push(("pre-existing".into(), "original".into()));
+                }
+                set_actor(&mut t, which, exit.clone(), ops, *noutf8);
+                t.labels.push(format!("stage={}", stage.map(gen::fname).unwrap_or("none")));
+                t.labels.push(format!("exit={:?}{}", exit, if *noutf8 { "+NOUTF8" } else { "" }));
+                t.labels.push(format!("fileops={fo}"));
+                exec_supply("C08", &t, scratch, rec, seed, index);
+                match exit {
+                    ExitSpec::Signal(_) => rec.probe("inspection killed by signal"),
+                    ExitSpec::NotFound => rec.probe("inspection command not found"),
+                    _ => {}
+                }
+                if stage.is_none() {
+                    rec.probe("all stages pass, inspection outcome decides");
+                }
+            }
+        }
+    }
+}
